@@ -393,7 +393,8 @@ struct Driver {
       if (pre.knownRowLost || post.knownRowLost) return "swap_rows_with_row_unknown_to_the_maps";
       if (pre.mapsBroken || (!pre.rowSwapped && !pre.mapsIdentity)) return "reorder_bounded_by_number_of_columns";  // left behind by an earlier reorder
       if (abnormal && o->k == INS_AT && !S.mapc && pre.rowSwapped) return "insert_column_at_counted_before_pending_reorder";
-      if (abnormal && (pre.rowSwapped || post.rowSwapped) && (pre.reorderUnsafe || post.reorderUnsafe)) return "reorder_bounded_by_number_of_columns";
+      if (abnormal && (pre.rowSwapped || post.rowSwapped || o->k == SWAP_R || o->k == SWAP_C) && (pre.reorderUnsafe || post.reorderUnsafe))
+        return "reorder_bounded_by_number_of_columns";
       if (range_op && pre.rowSwapped && !pre.mapsIdentity) return "entry_range_rows_not_translated_under_pending_row_swap";
       if (!post.rowSwapped && (!post.mapsIdentity || post.mapsBroken)) return "reorder_bounded_by_number_of_columns";
       if (CT == Column_types::VECTOR && (pre.erasedAbsent || post.erasedAbsent)) return "vector_column_zeroed_absent_entry_recorded_as_erased";
@@ -750,6 +751,7 @@ struct RunArgs {
   std::vector<int> replay_ops;
   bool failed = false;
   int configs = 0;
+  long long skipped_before = 0, validated_before = 0;
 };
 
 template <int V>
@@ -802,9 +804,11 @@ void run_variant(RunArgs& A) {
   st.add("ev.transitions", r.transitions);
   long long skipped = 0;  // transitions counted but not executed again after three deaths in the same situation
   for (auto& kv : st.c) if (kv.first.rfind("not_executed.", 0) == 0) skipped += kv.second;
-  static long long skipped_before = 0;
-  long long executed = r.transitions + 1 + r.validated - (skipped - skipped_before);
-  skipped_before = skipped;
+  // both counters are cumulative over the configurations explored by this process
+  long long validated = r.validated - A.validated_before;
+  long long executed = r.transitions + 1 + validated - (skipped - A.skipped_before);
+  A.skipped_before = skipped;
+  A.validated_before = r.validated;
   st.add("ev.traces", executed);
   st.add("ev.evaluations", executed);
   st.add("ev.nontrivial", r.states);
